@@ -1162,3 +1162,7 @@ MA('C08', 'nuclear norm conjugate swaps the two exponents', DEFFN,
 M('C08', 'conj_exponent of a generic p', 'odl/util/utility.py',
   "        return exp / (exp - 1.0)", "        return exp / (exp + 1.0)",
   'convex_conj')
+MA('C18', 'half-complex inverse forgets the real shape (regression)',
+   'odl/trafos/fourier.py', 'DiscreteFourierTransformInverse._call_numpy',
+   'return np.fft.irfftn(x, s=s, axes=self.axes)',
+   'return np.fft.irfftn(x, axes=self.axes)', '_call_numpy:irfftn')
